@@ -24,7 +24,8 @@ RULE = (
     "conflicts with some row. Distinct = distinct (J, aggregator configuration, dtype)."
 )
 ASSUMPTIONS = [
-    "fp = K m eps(dtype) s^2 |w|, K = 500 (observed worst on the unchanged tree: 62 per unit of m eps s^2 |w|); CAGrad tau = 2e-4 (float64) / 3e-3 (float32) (>= 10x calibrated worst)",
+    "fp = K m eps(dtype) s^2 |w| with K = 500 (MGDA, CAGrad) and 100 max(1, 1e-2/sqrt(reg_eps)) for UPGrad/DualProj "
+    "(quadprog's dual-feasibility rounding grows with the conditioning of the regularised Gramian); CAGrad tau = 2e-4 (float64) / 3e-3 (float32) (>= 10x calibrated worst)",
     "UPGrad/DualProj in the documented reg_eps domain (see C03); s >= 2 norm_eps",
 ]
 LEVEL_TEXT = (
@@ -123,7 +124,9 @@ def run_case(case) -> Outcome:
     if name in ("UPGrad", "DualProj"):
         w = A.weighting(Jt).double().numpy()
         reg = spec.get("reg_eps", 1e-4)
-        fp = K * m * eps * s**2 * float(np.linalg.norm(w)) + 1e-300
+        # quadprog leaves the dual feasibility H w >= 0 violated by rounding that grows with the conditioning of
+        # H = G/s^2 + reg I (calibrated on 1e6 cases: ~3 m eps at reg 1e-4, ~300 m eps at reg 1e-8)
+        fp = 0.2 * K * m * eps * s**2 * float(np.linalg.norm(w)) * max(1.0, 1e-2 / np.sqrt(reg)) + 1e-300
         allow = reg * s**2 * np.abs(w)
         viol = float(np.max(-(prod + allow)))
         out.within(max(viol, 0.0), fp, f"conflict:{name}",
